@@ -39,6 +39,7 @@ TRUSTED = ["harness/c10.py + driver JSON glue", "h5py/libhdf5 byte encoding (onl
 ASSUMPTIONS = ["exact regime only: dyadic corners and cells, subregions on cell vertices (clear of the 0.1 % divisibility and "
                "1e-12 alignment thresholds); nothing on the HDF5 code path does arithmetic on values, so equality is demanded",
                "component labels that collide with Field attributes are not generated (constructor's business)",
+               "bc strings use ASCII characters only (Lean's String.toLower is ASCII-only, Python's str.lower is Unicode)",
                "theorem hypotheses carried explicitly: unit != 'None' (string), |int data| <= 2^53 is NOT needed by the model "
                "(rationals) but is by binary64: see known findings D22/D23"]
 UNPROVED = ["legacy_read is FALSE of the code as it stands (every legacy file is rejected: finding D21); proved instead: "
@@ -620,7 +621,7 @@ def tamper(path, how, c, rng):
         elif how == "unit_none":
             g.attrs["unit"] = rng.choice(["None", "none", "NONE"])
         elif how == "bc_upper":
-            d = [x for x in _attr_strs(gr.attrs["dims"]) if len(x) == 1 and x.upper() != x]
+            d = [x for x in _attr_strs(gr.attrs["dims"]) if len(x) == 1 and x.isascii() and x.upper() != x]
             gm.attrs["bc"] = rng.choice(["NEUMANN", "Dirichlet"] + ([d[0].upper()] if d else []))
         elif how == "bc_bad":
             d = _attr_strs(gr.attrs["dims"])
